@@ -64,31 +64,52 @@ Section Spec.
   Definition offset_of (ci : nat) : Z :=
     dsN c + fold_right Z.add 0 (map dslen (firstn ci (sides c))).
 
-  (* one whole pass over config ci: all its indices, shifted, batched by the
-     config's (else the main) batch size, short final batch *)
-  Definition side_events (ci : nat) (sc : side_cfg) : list event :=
+  (* one whole pass over config ci, the p-th iteration of its sampler (counted
+     from 0): all indices of that iteration, shifted, batched by the config's
+     (else the main) batch size, short final batch *)
+  Definition side_events (ci : nat) (sc : side_cfg) (p : nat) : list event :=
     flat_map (emit (Side ci))
-             (chunk (Z.to_nat (or_default (sbs sc) (cB c))) (map (Z.add (offset_of ci)) (sidx sc))).
+             (chunk (Z.to_nat (or_default (sbs sc) (cB c))) (map (Z.add (offset_of ci)) (sidx sc p))).
 
-  Fixpoint passes_from (ci : nat) (l : list side_cfg) (k : counters) : list event :=
-    match l with
-    | [] => []
-    | sc :: l' => (if due sc k then side_events ci sc else []) ++ passes_from (S ci) l' k
+  (* pn = for every config, how often its sampler was iterated before this update *)
+  Fixpoint passes_from (ci : nat) (l : list side_cfg) (pn : list nat) (k : counters) : list event :=
+    match l, pn with
+    | sc :: l', p :: pn' => (if due sc k then side_events ci sc p else []) ++ passes_from (S ci) l' pn' k
+    | _, _ => []
     end.
+
+  (* how many of the first j updates of epoch e made config sc due *)
+  Definition due_count (sc : side_cfg) (e : Z) (bs : list (list Z)) (j : nat) : nat :=
+    length (filter (fun j' => due sc (counters_at e bs j')) (seq 0 j)).
+
+  (* pass numbers before the (j+1)-th update of epoch e, given those at its start:
+     every earlier update at which a config was due consumed one iteration *)
+  Fixpoint pn_at_from (l : list side_cfg) (pn : list nat) (e : Z) (bs : list (list Z)) (j : nat) : list nat :=
+    match l, pn with
+    | sc :: l', p :: pn' => (p + due_count sc e bs j)%nat :: pn_at_from l' pn' e bs j
+    | _, _ => []
+    end.
+  Definition pn_at (pn : list nat) (e : Z) (bs : list (list Z)) (j : nat) : list nat :=
+    pn_at_from (sides c) pn e bs j.
 
   (* the (j+1)-th update of epoch e: its counters and what the stream shows for it
      (the batch, then the passes of the configs that are due, in config order) *)
   Record upd := { u_k : counters; u_events : list event }.
 
-  Definition upd_at (e : Z) (bs : list (list Z)) (j : nat) : upd :=
+  Definition upd_at (e : Z) (bs : list (list Z)) (pn : list nat) (j : nat) : upd :=
     let k := counters_at e bs j in
-    {| u_k := k; u_events := emit Main (nth j bs []) ++ passes_from 0 (sides c) k |}.
+    {| u_k := k; u_events := emit Main (nth j bs []) ++ passes_from 0 (sides c) (pn_at pn e bs j) k |}.
 
-  Definition epoch_updates (e : Z) : list upd :=
-    let bs := epoch_batches e in map (upd_at e bs) (seq 0 (length bs)).
+  Definition epoch_updates (e : Z) (pn : list nat) : list upd :=
+    let bs := epoch_batches e in map (upd_at e bs pn) (seq 0 (length bs)).
 
-  Definition hit (u : upd) : bool :=
-    budget_reached c (k_epoch (u_k u)) (k_update (u_k u)) (k_sample (u_k u)).
+  (* pass numbers at the start of the next epoch *)
+  Definition pn_next (e : Z) (pn : list nat) : list nat :=
+    let bs := epoch_batches e in pn_at pn e bs (length bs).
+
+  (* one of the given budgets is reached by the update with counters k *)
+  Definition hit_k (k : counters) : bool := budget_reached c (k_epoch k) (k_update k) (k_sample k).
+  Definition hit (u : upd) : bool := hit_k (u_k u).
 
   (* everything up to and including the first element satisfying p *)
   Fixpoint take_until {A : Type} (p : A -> bool) (l : list A) : list A * bool :=
@@ -100,29 +121,33 @@ Section Spec.
 
   (* what epoch e shows: the announcement, then its updates up to and including
      the first one at which the budget is reached; and whether that happened *)
-  Definition epoch_events (e : Z) : list event :=
-    SetEpoch e :: flat_map u_events (fst (take_until hit (epoch_updates e))).
-  Definition epoch_hits (e : Z) : bool := snd (take_until hit (epoch_updates e)).
+  Definition epoch_events (e : Z) (pn : list nat) : list event :=
+    SetEpoch e :: flat_map u_events (fst (take_until hit (epoch_updates e pn))).
+  Definition epoch_hits (e : Z) : bool :=
+    let bs := epoch_batches e in existsb (fun j => hit_k (counters_at e bs j)) (seq 0 (length bs)).
 
   (* the run from the beginning of epoch e0, looking at most n epochs ahead:
      epoch after epoch until the budget is reached (None: not within n epochs) *)
-  Fixpoint spec_run (e0 : Z) (n : nat) : option (list event) :=
+  Fixpoint spec_run (e0 : Z) (pn : list nat) (n : nat) : option (list event) :=
     match n with
     | O => None
     | S n' =>
-        if epoch_hits e0 then Some (epoch_events e0)
-        else match spec_run (e0 + 1) n' with
-             | Some rest => Some (epoch_events e0 ++ rest)
+        if epoch_hits e0 then Some (epoch_events e0 pn)
+        else match spec_run (e0 + 1) (pn_next e0 pn) n' with
+             | Some rest => Some (epoch_events e0 pn ++ rest)
              | None => None
              end
     end.
 
   (* a zero budget: exactly one full pass over every config, in order *)
-  Fixpoint spec_eval (ci : nat) (l : list side_cfg) : list event :=
-    match l with [] => [] | sc :: l' => side_events ci sc ++ spec_eval (S ci) l' end.
+  Fixpoint spec_eval (ci : nat) (l : list side_cfg) (pn : list nat) : list event :=
+    match l, pn with
+    | sc :: l', p :: pn' => side_events ci sc p ++ spec_eval (S ci) l' pn'
+    | _, _ => []
+    end.
 
   (* which checkpoints the constructor must accept, and the epoch they denote *)
-  Definition spec_start (a : start_arg) : ctor_result :=
+  Definition spec_start (a : start_arg) : start_result :=
     match a with
     | NoStart => Start 0 0 0
     | StartEpoch e => Start e (e * upe c) (e * spe c)
@@ -134,6 +159,6 @@ Section Spec.
              then Start (s / cB c / upe c) (s / cB c) (s / cB c / upe c * spe c) else NotImplemented
     end.
 
-  Definition spec_iter (e0 : Z) (n : nat) : option (list event) :=
-    if zero_budget c then Some (spec_eval 0 (sides c)) else spec_run e0 n.
+  Definition spec_iter (e0 : Z) (pn : list nat) (n : nat) : option (list event) :=
+    if zero_budget c then Some (spec_eval 0 (sides c) pn) else spec_run e0 pn n.
 End Spec.
